@@ -6,7 +6,7 @@ delete / list / query, each with its specified reply).  Pipeline of one check:
   1. build harness/cmd/hv_storage against the tree under test;
   2. exhaustive TLC run of MC_Storage(.cfg | _thorough.cfg): type invariant, key = body, and the
      reply / frame properties of C10 on every transition of the specification;
-  3. call sequences from TLC: EVERY sequence of length 3 (quick) / 4 (thorough) over a 16-call
+  3. call sequences from TLC: EVERY sequence of length 3 (quick) / 4 (thorough) over a 17-call
      alphabet (MC_EnumStorage, breadth-first) + seeded random behaviours of length 5 / 7 over the
      whole key space (MC_GenStorage, -simulate -seed VERIF_SEED) + a few long seeded random sequences;
   4. hv_storage replays every sequence step by step on driver.Memory, driver.Secrets and
@@ -45,6 +45,8 @@ def call_str(c):
         return "%s(%s/%d,%s,v%d)" % (c["op"], c["name"], c["rev"], c["st"], c["v"])
     if c["op"] in ("get", "delete"):
         return "%s(%s/%d)" % (c["op"], c["name"], c["rev"])
+    if c["op"] == "modify":
+        return "modify(%s/%d:=%s,read-by-%s)" % (c["name"], c["rev"], c["st"], "query" if c["q"]["owner"] == "helm" else "list")
     q = ",".join("%s=%s" % (k, v) for k, v in sorted(c["q"].items()) if v)
     return "%s(%s)" % (c["op"], q)
 
@@ -83,10 +85,14 @@ def long_random(seed, n, length):
     for i in range(n):
         calls = []
         for _ in range(length):
-            op = rnd.choice(["create", "create", "update", "update", "get", "delete", "delete", "list", "query"])
+            op = rnd.choice(["create", "create", "update", "modify", "modify", "get", "delete", "delete", "list", "query"])
             if op in ("create", "update"):
                 c = {"op": op, "name": rnd.choice(NAMES), "rev": rnd.choice(REVS), "st": rnd.choice(STATUSES),
                      "v": rnd.choice(VARIANTS), "q": dict(NOSEL)}
+            elif op == "modify":
+                nm = rnd.choice(NAMES)
+                c = {"op": op, "name": nm, "rev": rnd.choice(REVS), "st": rnd.choice(STATUSES), "v": 0,
+                     "q": dict(NOSEL, name=nm, owner=rnd.choice(["helm", ""]))}
             elif op in ("get", "delete"):
                 c = {"op": op, "name": rnd.choice(NAMES), "rev": rnd.choice(REVS), "st": "", "v": 0, "q": dict(NOSEL)}
             else:
@@ -147,13 +153,13 @@ def run_batch(hv, bd, scs, seed, tier, hv_workers):
         if i in bad:
             cur_bad = True
             res["mismatches"].append(dict(scenario=e["scenario"], drv=e["drv"], step=e["step"], what=bad[i], op=e["call"]["op"],
-                                          call=e["call"], reply=e["reply"], raw=e.get("raw", {}), line=i))
+                                          call=e["call"], reply=e["reply"], raw=e.get("raw", {}), line=i, store=e.get("store", {})))
         elif cur_bad:
             res["tainted_lines"] += 1
         else:
             r = e["reply"]
             res["classes"]["%s:%s:%s%s" % (e["drv"], e["call"]["op"], r["st"], ":nonempty" if r["set"] else "")] += 1
-            if e["call"]["op"] in ("create", "update") and r["st"] == "ok" and not wrote:
+            if e["call"]["op"] in ("create", "update", "modify") and r["st"] == "ok" and not wrote:
                 wrote = True
                 res["nontrivial"].add(e["scenario"])
     if res["traces"] and not cur_bad:
@@ -197,6 +203,11 @@ def kf_of_mismatch(m):
     if m["drv"] in ("secret", "configmap") and m["op"] in ("get", "delete", "list", "query") and m["what"] == "reply" \
             and raw.get("class") == "ok" and raw.get("bigint") and raw.get("diff") == ["values"]:
         return "KF-L20-k8s-driver-float64-values"
+    # ... and the same defect seen through modify: the object the driver's Query / List returned (numbers already
+    # float64) is written back, so the stored body itself now holds the changed number
+    if m["drv"] in ("secret", "configmap") and m["op"] == "modify" and m["what"] == "store" \
+            and raw.get("class") == "ok" and raw.get("bigint") and raw.get("storediff") == ["values"]:
+        return "KF-L20-k8s-driver-float64-values"
     return None
 
 
@@ -213,6 +224,8 @@ def judge(res, listed):
             json.dumps(m["reply"]["set"]), (" [" + m["raw"].get("err", "") + "]") if m["raw"].get("err") else "")
         if m["raw"].get("diff"):
             txt += " differs-on=" + ",".join(m["raw"]["diff"])
+        if m["what"] == "store":
+            txt += " store=" + json.dumps(m.get("store", {}), sort_keys=True)
         if m["raw"].get("key"):
             txt += " key=" + json.dumps(m["raw"]["key"])
         elif m["raw"].get("cname"):
@@ -310,7 +323,7 @@ def self_test(hv, d, scs, seed, tier, hv_workers):
     return out
 
 
-EXPECTED_CLASSES = ["create:ok", "create:exists", "update:ok", "update:notfound", "get:ok", "get:notfound",
+EXPECTED_CLASSES = ["create:ok", "create:exists", "update:ok", "update:notfound", "modify:ok", "modify:notfound", "get:ok", "get:notfound",
                     "delete:ok", "delete:notfound", "list:ok", "list:ok:nonempty", "query:ok:nonempty", "query:notfound"]
 
 
